@@ -93,6 +93,14 @@ func loggerInput(k loggerCase) []byte {
 			b = append(b, gen.RandFrame(r).Bytes...)
 		}
 		return b[:k.Size]
+	case "lines":
+		// complete lines of plain text ending in a line feed (what can be typed or
+		// pasted into a terminal in its default mode without being rewritten by it)
+		var b []byte
+		for n := 0; len(b) < k.Size; n++ {
+			b = append(b, fmt.Sprintf("$GNGLL,5321.68%02d,N,00630.33%02d,W,0927%02d.000,A,A*%02X\n", r.Intn(100), r.Intn(100), n%60, r.Intn(256))...)
+		}
+		return b
 	case "text":
 		b := make([]byte, k.Size)
 		for i := range b {
@@ -155,14 +163,21 @@ func execC16(c *child.Ctx, k loggerCase, cj []byte) {
 	}
 	ak := appCase{ID: k.ID, StdinMode: "pipe", StdoutMode: "fast", Chunk: k.Chunk, ReaderUs: k.GapUs, Procs: k.Procs, HookProfile: k.Hook,
 		SilenceAfterChunks: k.SilenceAfterChunks, SilenceMs: k.SilenceMs, StdinNonblock: k.StdinNonblock, FirstChunk: k.FirstChunk}
-	if k.Stdin == "file" {
-		ak.StdinMode = "file"
+	if k.Stdin == "file" || k.Stdin == "devnull" || k.Stdin == "pty" {
+		ak.StdinMode = k.Stdin
 	}
 	if k.Stdin == "pipe-close-at-once" {
 		ak.Chunk = len(in) + 1
 		ak.ReaderUs = 0
 	}
 	res := runAppProcess(c, filepath.Join(c.BinDir, "rtcmlogger"), []string{"-c", filepath.Join(dir, "cfg.json")}, in, ak, dir, extraEnv)
+	if k.Stdin == "pty" && res.ExitCode == -2 {
+		c.Count("pseudo_terminal_not_available", 1)
+		return
+	}
+	if k.Stdin == "devnull" || k.Stdin == "pty" {
+		c.Count("runs_with_input_from_a_character_device", 1)
+	}
 	switch {
 	case res.StdinRefused:
 		c.Violate("pass-through-differs", fmt.Sprintf("rtcmlogger closed its standard input after %d of %d bytes while it kept running; %d bytes had been passed through (log_events %v)\n%s",
@@ -312,6 +327,15 @@ func monC16(c *child.Ctx, replay json.RawMessage) {
 			// a stream that begins with a frame, its first few bytes arriving on their own
 			k.Content, k.Stdin, k.FirstChunk = "frames", "pipe", 1+i/5%8
 			c.Count("runs_with_a_tiny_first_read", 1)
+		}
+		if i%13 == 3 || i%13 == 8 {
+			// the standard input is a character device: /dev/null (an empty input), or a
+			// terminal in its default mode that is given lines of text and then ^D
+			k.Stdin, k.Size, k.Content = "devnull", 0, "random"
+			if i%13 == 8 {
+				k.Stdin, k.Size, k.Content = "pty", []int{0, 1, 400, 1500}[r.Intn(4)], "lines"
+			}
+			k.SilenceMs, k.SilenceAfterChunks, k.StdinNonblock, k.FirstChunk, k.Chunk, k.GapUs = 0, 0, false, 0, 0, 0
 		}
 		if i == 2 && c.Batch == 0 || c.Thorough() && i%100 == 2 {
 			// a long session with the event log on: several megabytes through one process
